@@ -37,62 +37,7 @@ UNTERMINATED = {
 # ends in every distinct lexer / minifier state (inside a comment, PI, CDATA, DOCTYPE, tag, attribute value, string,
 # url(, template literal, regex, raw-text element, ...): an early return for one particular end-of-input state skips
 # the final probe write only for inputs that end exactly there
-TRUNC = {
-    'svg': [b'<?xml version="1.0"?><svg><g id="a"/></svg>',
-            b'<svg><path d="M0 0"/></svg><?pi href="a"?> ',
-            b'<svg><!-- c --><style>a{b:c}</style></svg>',
-            b'<svg><![CDATA[ x ]]><text> a </text></svg>',
-            b'<!DOCTYPE svg [<!ENTITY a "b">]><svg/>',
-            b'<svg a=\'b\' c="d"><metadata>x</metadata></svg>',
-            b'<svg><style><![CDATA[a{b:c}]]></style></svg>',
-            b'<svg xmlns:x="y"><x:a b="c"/><rect x="1px"/></svg>',
-            b'<svg><script>var a = 1;</script><a/></svg>',
-            b'<svg style="a:b" fill="#ffffff"> <g> </g> </svg>'],
-    'xml': [b'<?xml version="1.0"?><a b="c"> d </a>',
-            b'<a><!-- c --><![CDATA[ x ]]></a><?pi x?>',
-            b'<!DOCTYPE a [<!ENTITY b "c">]><a/>',
-            b'<a b=\'c\' d="e&amp;f"><b/> t </a >',
-            b'<a> <b> x </b> <?p q?> </a>',
-            b'<a><![CDATA[]]><![CDATA[ <b> ]]> y</a>',
-            b'<!DOCTYPE a SYSTEM "x.dtd"><a>&lt;</a>',
-            b'<a  b = "c" ><!----> <c/> </a>'],
-    'html': [b'<!doctype html><p class="a b" id=x>t</p>',
-             b'<a href=\'x\' title="y">z</a><!-- c -->',
-             b'<script>var a = "b";</script><p>x',
-             b'<style>a{b:c}</style><pre> x </pre>',
-             b'<textarea> a </textarea><br/><![CDATA[x]]>',
-             b'<svg><path d="M0 0"/></svg><math><mi>x</mi></math>',
-             b'<p>a &amp; b</p><input value="c" disabled>',
-             b'<?php x ?><div style="a:b" onclick="c()">d</div>',
-             b'<title> t </title><iframe>x</iframe>',
-             b'<ul><li>a<li>b</ul><select><option>c</select>',
-             b'<!--[if IE]><p>x</p><![endif]--><b> y </b>',
-             b'<a href="data:text/css,a{b:c}">x</a>'],
-    'css': [b'a{b:c;d:"e";f:url(g.png)}',
-            b'/* c */@media x{a{b:c}}',
-            b'@import "a.css";a[b="c"]{d:e}',
-            b'a{b:rgb(1,2,3);c:calc(1px + 2px)}',
-            b'a>b,c+d{e:f!important}/*! k */',
-            b'@font-face{a:b}a::after{content:\'\\n\'}',
-            b'a{b:url( "x y" );c:#ffffff;d:1.0e2px}',
-            b'<!-- a{b:c} -->',
-            b'@charset "utf-8";@x y{z}',
-            b'a{b:c d,e f;g:U+0-7F;--h:{i}}'],
-    'js': [b'var a = "b", c = \'d\', e = `f${g}h`;',
-           b'/* c */ a = /re[/]/g; // d',
-           b'function f(a){return a+1}f(2)',
-           b'if(a){b()}else{c()}for(;;){}',
-           b'a = {b: 1, "c": [2, 3]}; a?.b',
-           b'class A extends B{c(){}}',
-           b'x = a ? b : c; y = 1.0e3; z = 0x1F',
-           b'label: while(a) break label;',
-           b'a => {b}; async () => await c',
-           b'#!/bin/x\na <!-- b\n--> c',
-           b'try{a}catch(e){b}finally{c}'],
-    'json': [b'{"a": [1, 2.0e1, true, null], "b": "c\\"d"}',
-             b'[ {"a":{}}, [], "\\u00e9", -0.5 ]',
-             b'  "string"  ', b'123', b'{"a":false}'],
-}
+TRUNC = base.TRUNC
 
 
 def truncations(ctx, suite):
@@ -144,6 +89,13 @@ def make_cases(ctx, inputs, trunc):
     rnd = ctx.rnd
     cases = []
     quick = ctx.quick()
+    # Close as the FIRST call on the writer wrapper (empty input, no Write call at all) against a sink that fails from its
+    # first call, many rounds under different GOMAXPROCS: Close must wait for a worker that may not even have started
+    for t in ORDER:
+        for r in range(30 if quick else 200):
+            reg = base.REGS[r % 3]
+            cases.append(dict(id=len(cases), mode='writer', mt=base.mt_for(t, reg, rnd, params=False), reg=reg, enum='sink',
+                              stride=1, chunks=[], tag='closefirst:' + t, rep=r, **{'in': []}))
     # inputs that end in every lexer / minifier state: the sink fails from every call k, plain call
     done = set()
     for t in ORDER:
@@ -254,7 +206,7 @@ def mc_jobs(ctx, tier):
                 raise vlib.Infra('wrong design %s not rejected by %s (got %s)\n%s' % (name, expect, viol, r['out'][-1500:]))
             return {'wrong_design_' + name: 'rejected by ' + sorted(viol & set(expect))[0]}
         return f
-    muts = [m for m in base.MUTANTS if m[0] in ('noprobe', 'eofswallow', 'noerr')]
+    muts = [m for m in base.MUTANTS if m[0] in ('noprobe', 'eofswallow', 'noerr', 'addinside')]
     return [('main', main)] + [('mut_' + n, mut(n, e)) for n, e in muts]
 
 
